@@ -62,6 +62,8 @@ struct Generator::GeneratorImpl
     bool isPowerOperator(const AnalyserEquationAstPtr &ast) const;
     bool isRootOperator(const AnalyserEquationAstPtr &ast) const;
     bool isPiecewiseStatement(const AnalyserEquationAstPtr &ast) const;
+    bool isLogarithmWithBase(const AnalyserEquationAstPtr &ast) const;
+    bool isOperatorExpression(const AnalyserEquationAstPtr &ast) const;
 
     void updateVariableInfoSizes(size_t &componentSize, size_t &nameSize,
                                  size_t &unitsSize,
